@@ -108,6 +108,8 @@ let answer line =
     id ^ "\t" ^ String.concat "," (List.concat_map (fun r -> match r.k_lock with
       | Some l -> [hex_of_key r.k_key ^ "@" ^ hex_of_n l.l_start ^ "=" ^ (match committed_at st l.l_primary l.l_start with Some c -> hex_of_n c | None -> "N")]
       | None -> []) st)
+  | ["markers"; id; sp; st] ->
+    id ^ "\t" ^ String.concat "," (List.map (fun (k, t) -> hex_of_key k ^ "@" ^ hex_of_n t) (markers (parse_store st) (n_of_hex sp)))
   | ["pok"; id; st] -> id ^ "\t" ^ (if primaries_okb (parse_store st) then "1" else "0")
   | ["wf"; id; sp; st] -> id ^ "\t" ^ (if wf_storeb (parse_store st) then "1" else "0")
   | id :: _ -> id ^ "\tunknown-op"
